@@ -177,6 +177,15 @@ theorem C17_mixmul_i_ul (a b : Int) (ha : InR tI a) (hb : InR tUL b) :
   · rename_i h; simp only [Outcome.bind_ret, if_pos (show InR tI b from h)]; exact C17_mul_i a b ha h
   · rename_i h; simp only [Outcome.bind_throw, if_neg (show ¬ InR tI b from h)]
 
+/-- reversed form `T1 op SafeInt<T2>` (src/asl/aslbuilder.cc: `sizeof(..) + SafeInt<int>(..)`): the plain
+    left operand is first converted with the checked constructor. -/
+theorem C17_revadd_ul_i (a b : Int) (ha : InR tUL a) (hb : InR tI b) :
+    revadd_ul_i a b = if InR tI a then spec tI (a + b) else .throw := by
+  simp only [revadd_ul_i, C17_ctor_ul_i a ha, spec]
+  split
+  · rename_i h; simp only [Outcome.bind_ret, if_pos (show InR tI a from h)]; exact C17_add_i a b h hb
+  · rename_i h; simp only [Outcome.bind_throw, if_neg (show ¬ InR tI a from h)]
+
 /-- never undefined behaviour, as a corollary (shown for one instantiation of each shape;
     every theorem above has `spec` on the right-hand side, and `spec_ne_ub` applies to all) -/
 theorem C17_no_ub_add_i (a b : Int) (ha : InR tI a) (hb : InR tI b) : add_i a b ≠ .ub := by
